@@ -26,10 +26,12 @@ def model_check(ctx):
     if ctx.quick:
         ctx.mc("ApplyParams", "MC_ApplyParams_q.cfg", label="one device: 4 cells, 4 placements, continuous/etched/discrete, materials from {1,2,4}, all histories <= 3")
         ctx.mc("ApplyParams", "MC_ApplyParams_q2.cfg", label="etched + plain device, both list orders, disjoint / overlapping, all histories <= 3")
+        ctx.mc("ApplyParams", "MC_ApplyParams_q4.cfg", label="two plain devices with different material sets (continuous / discrete), both list orders, histories <= 2")
         ctx.mc("ApplyParams", "MC_ApplyParams_q3.cfg", label="dispersive simulations: plain / dispersive device materials on plain / dispersive cells, histories <= 2")
     else:
         ctx.mc("ApplyParams", "MC_ApplyParams_t.cfg", label="one and two devices, placed scenes over {1,2,4}^4, all histories <= 3", timeout=3 * 3600)
     ctx.mc_negative("ApplyParams", "MC_ApplyParams_neg.cfg")  # no backup of the placed arrays at all
+    ctx.mc_negative("ApplyParams", "MC_ApplyParams_neg4.cfg")  # material table of the first device reused for every device
     ctx.mc_negative("ApplyParams", "MC_ApplyParams_neg3.cfg")  # only devices with a dispersive material write the coefficients
     ctx.mc_negative("ApplyParams", "MC_ApplyParams_neg2.cfg")  # backup only if ALL devices etch (etched + plain scene)
     ctx.assumptions += [
@@ -112,6 +114,17 @@ def gen_cases(ctx):
         e = {"lo": 0, "hi": 2, "vox": 1, "kind": "etched", "mats": [[1, 2, 4]]}
         q = {"lo": 3, "hi": 5, "vox": 2, "kind": "continuous", "mats": [FULL_A, 4]}
         pairs.append({"N": 6, "slab": (1, 4, FULL_B), "vol": 1, "disp": 0, "devs": [e, q] if order == 0 else [q, e]})
+    # twins: two PLAIN devices whose material dicts have the same keys (names) but different permittivities; both list
+    # orders; disjoint, touching and overlapping placements
+    twins = []
+    for N, pl1, pl2 in ((6, (0, 2, 1), (3, 6, 3)), (4, (0, 2, 2), (2, 4, 1)), (6, (0, 4, 2), (2, 6, 2))):
+        for k1, k2, m1, m2 in (("continuous", "continuous", [1, 2], [2, 4]), ("continuous", "continuous", [1, 4], [1, 2]), ("discrete", "discrete", [2, 4], [1, 4]),
+                               ("discrete", "discrete", [1, 2, 4], [2, 4, 8]), ("continuous", "discrete", [1, 2], [4, 8]), ("discrete", "continuous", [1, 4], [2, 4])):
+            for slab in (None, (1, N, 2)):
+                for order in (0, 1):
+                    a = {"lo": pl1[0], "hi": pl1[1], "vox": pl1[2], "kind": k1, "mats": m1}
+                    b = {"lo": pl2[0], "hi": pl2[1], "vox": pl2[2], "kind": k2, "mats": m2}
+                    twins.append({"N": N, "slab": slab, "vol": 1, "disp": 0, "devs": [a, b] if order == 0 else [b, a]})
     ctx.exhaustive = False
     if ctx.quick:  # keep every anisotropic / dispersive scene family, thin the isotropic ones
         def is_iso(sc):
@@ -121,9 +134,10 @@ def gen_cases(ctx):
         rest = [sc for sc in scenes if not is_iso(sc)]
         plain_on_disp = [sc for sc in rest if sc["disp"] and "dvol" in sc]
         rest = [sc for sc in rest if sc not in plain_on_disp]
-        scenes = rng.sample(iso, 22) + rng.sample(rest, min(len(rest), 18)) + rng.sample(plain_on_disp, 16)
-        pairs = rng.sample(pairs[:-2], 20) + pairs[-2:]
-    for sc in scenes + pairs:
+        scenes = rng.sample(iso, 16) + rng.sample(rest, min(len(rest), 14)) + rng.sample(plain_on_disp, 14)
+        pairs = rng.sample(pairs[:-2], 16) + pairs[-2:]
+        twins = rng.sample(twins, 16)
+    for sc in scenes + pairs + twins:
         devs = sc["devs"]
         allp = []
         for i, d in enumerate(devs):
